@@ -353,10 +353,19 @@ def _after_build(pid, args, seed, t0, reg, known, tier, facts, facts_changed, bu
         # not a machinery failure: the property is no longer shown to hold on this tree.  An
         # exception raised by the harness's own code stays a machinery error (exit 2).
         tb = traceback.extract_tb(e.__traceback__)
-        inner = [f for f in tb if os.path.realpath(f.filename).startswith(os.path.realpath(REPO) + os.sep)]
-        if not inner or os.path.realpath(tb[-1].filename).startswith(VERIF + os.sep):
+        repo_prefix = os.path.realpath(REPO) + os.sep
+        inner = [f for f in tb if os.path.realpath(f.filename).startswith(repo_prefix)]
+        last_in_verif = os.path.realpath(tb[-1].filename).startswith(VERIF + os.sep)
+        # an exception re-raised from a multiprocessing worker carries the remote traceback as text
+        remote = str(getattr(e, '__cause__', '') or '')
+        if remote:
+            frames = re.findall(r'File "([^"]+)", line \d+', remote)
+            if frames:
+                inner = [f for f in frames if os.path.realpath(f).startswith(repo_prefix)]
+                last_in_verif = os.path.realpath(frames[-1]).startswith(VERIF + os.sep)
+        if not inner or last_in_verif:
             raise
-        text = ''.join(traceback.format_exception(type(e), e, e.__traceback__))
+        text = remote or ''.join(traceback.format_exception(type(e), e, e.__traceback__))
         res = {'violations': [], 'evaluations': 0,
                'disagreements': [{'case': 'the harness could not complete',
                                   'impl': f'{type(e).__name__} raised inside the code under test: {text[-1500:]}',
